@@ -442,9 +442,14 @@ func c14Pool(c *Ctx) {
 	}
 }
 
-func c14Cache(c *Ctx) {
+func c14Cache(c *Ctx) { c14CacheR(c, "C14-R3") }
+
+// c14CacheR: the cache protocol of processJob and the coverage of every
+// CacheKey, reported under R (C14-R3; C15-R5: an answer or a failure of one
+// upstream is never served on behalf of another).
+func c14CacheR(c *Ctx, R string) {
 	p := c.P
-	pj := c.MustFunc("C14-R3", "internal/promapi.processJob")
+	pj := c.MustFunc(R, "internal/promapi.processJob")
 	if pj == nil {
 		return
 	}
@@ -461,138 +466,155 @@ func c14Cache(c *Ctx) {
 	runs := fl.Find(isRunCall)
 	gets := fl.FindCalls("internal/promapi.queryCache.get")
 	sets := fl.FindCalls("internal/promapi.queryCache.set")
-	c.Check(len(runs) == 1 && len(gets) == 1 && len(sets) == 1, "C14-R3", "processJob:one get, one Run, one set", pj.Decl.Pos(), "protocol sites found", "expected exactly one cache.get, one Run() and one cache.set, found "+itoa(len(gets))+"/"+itoa(len(runs))+"/"+itoa(len(sets)))
-	if len(runs) != 1 || len(gets) != 1 || len(sets) != 1 {
-		return
-	}
-	runSite := runs[0].Site
-	cacheNonNil := func(a Atom) bool {
-		x, isNil, ok := nilAtom(info, a)
-		return ok && fieldSel(info, x, "internal/promapi.Prometheus", "cache") && isNil
-	}
-	// with a cache present, Run is reachable only after get
-	reach, _ := fl.Reach(fl.Entry(), func(s Site) bool { return s == runSite }, false, PathQ{
-		Avoid: func(n ast.Node) bool { return fl.containsCall(n, "internal/promapi.queryCache.get") },
-		Cut: func(atoms []Atom) bool {
-			for _, a := range atoms {
-				if cacheNonNil(a) {
-					return true
-				}
-			}
-			return false
-		},
-	})
-	c.Check(!reach, "C14-R3", "processJob:get precedes Run when a cache exists", runs[0].Inner.Pos(), "lookup before execution", "Run() is reachable without a cache lookup although a cache is configured")
-	// a hit returns without Run: the if whose init calls get
-	var hitIf *ast.IfStmt
-	ast.Inspect(pj.Decl.Body, func(n ast.Node) bool {
-		if ifs, ok := n.(*ast.IfStmt); ok && ifs.Init != nil {
-			found := false
-			ast.Inspect(ifs.Init, func(m ast.Node) bool {
-				if call, ok := m.(*ast.CallExpr); ok && isCallTo(info, call, "internal/promapi.queryCache.get") {
-					found = true
-				}
-				return true
-			})
-			if found {
-				hitIf = ifs
-			}
+	c.Check(len(runs) == 1 && len(gets) == 1 && len(sets) >= 1, R, "processJob:one get, one Run, a set", pj.Decl.Pos(), "protocol sites found", "expected exactly one cache.get, one Run() and at least one cache.set, found "+itoa(len(gets))+"/"+itoa(len(runs))+"/"+itoa(len(sets)))
+	protocol := func() {
+		if len(runs) != 1 || len(gets) != 1 || len(sets) < 1 {
+			return
 		}
-		return true
-	})
-	okHit := false
-	if hitIf != nil {
-		// cond is the ok result; body ends with return
-		if as, ok := hitIf.Init.(*ast.AssignStmt); ok && len(as.Lhs) == 2 && objOf(info, hitIf.Cond) == objOf(info, as.Lhs[1]) && len(hitIf.Body.List) > 0 {
-			if r, ok := hitIf.Body.List[len(hitIf.Body.List)-1].(*ast.ReturnStmt); ok && len(r.Results) == 1 {
-				// the returned value derives from the cached value
-				uses := false
-				ast.Inspect(r.Results[0], func(m ast.Node) bool {
-					if id, ok := m.(*ast.Ident); ok && info.Uses[id] == objOf(info, as.Lhs[0]) {
-						uses = true
+		runSite := runs[0].Site
+		cacheNonNil := func(a Atom) bool {
+			x, isNil, ok := nilAtom(info, a)
+			return ok && fieldSel(info, x, "internal/promapi.Prometheus", "cache") && isNil
+		}
+		// with a cache present, Run is reachable only after get
+		reach, _ := fl.Reach(fl.Entry(), func(s Site) bool { return s == runSite }, false, PathQ{
+			Avoid: func(n ast.Node) bool { return fl.containsCall(n, "internal/promapi.queryCache.get") },
+			Cut: func(atoms []Atom) bool {
+				for _, a := range atoms {
+					if cacheNonNil(a) {
+						return true
+					}
+				}
+				return false
+			},
+		})
+		c.Check(!reach, R, "processJob:get precedes Run when a cache exists", runs[0].Inner.Pos(), "lookup before execution", "Run() is reachable without a cache lookup although a cache is configured")
+		// a hit returns without Run: the if whose init calls get
+		var hitIf *ast.IfStmt
+		ast.Inspect(pj.Decl.Body, func(n ast.Node) bool {
+			if ifs, ok := n.(*ast.IfStmt); ok && ifs.Init != nil {
+				found := false
+				ast.Inspect(ifs.Init, func(m ast.Node) bool {
+					if call, ok := m.(*ast.CallExpr); ok && isCallTo(info, call, "internal/promapi.queryCache.get") {
+						found = true
 					}
 					return true
 				})
-				okHit = uses
+				if found {
+					hitIf = ifs
+				}
+			}
+			return true
+		})
+		okHit := false
+		if hitIf != nil {
+			// cond is the ok result; body ends with return
+			if as, ok := hitIf.Init.(*ast.AssignStmt); ok && len(as.Lhs) == 2 && objOf(info, hitIf.Cond) == objOf(info, as.Lhs[1]) && len(hitIf.Body.List) > 0 {
+				if r, ok := hitIf.Body.List[len(hitIf.Body.List)-1].(*ast.ReturnStmt); ok && len(r.Results) == 1 {
+					// the returned value derives from the cached value
+					uses := false
+					ast.Inspect(r.Results[0], func(m ast.Node) bool {
+						if id, ok := m.(*ast.Ident); ok && info.Uses[id] == objOf(info, as.Lhs[0]) {
+							uses = true
+						}
+						return true
+					})
+					okHit = uses
+				}
 			}
 		}
-	}
-	c.Check(okHit, "C14-R3", "processJob:cache hit returns the cached value without Run", pj.Decl.Pos(), "hit short-circuits", "a cache hit no longer returns the cached result immediately (the server is asked again)")
-	// set only with nil error
-	var resultObj types.Object
-	ast.Inspect(pj.Decl.Body, func(n ast.Node) bool {
-		if as, ok := n.(*ast.AssignStmt); ok && len(as.Rhs) == 1 && isRunCall(as.Rhs[0]) {
-			resultObj = objOf(info, as.Lhs[0])
-		}
-		return true
-	})
-	setCall := sets[0].Inner.(*ast.CallExpr)
-	domErr := fl.Dominated(sets[0].Site, sets[0].Inner, func(a Atom) bool {
-		x, isNil, ok := nilAtom(info, a)
-		if !ok || !isNil {
-			return false
-		}
-		sel, isSel := ast.Unparen(x).(*ast.SelectorExpr)
-		return isSel && sel.Sel.Name == "err" && resultObj != nil && objOf(info, sel.X) == resultObj
-	})
-	c.Check(domErr, "C14-R3", "processJob:set only when result.err == nil", setCall.Pos(), "errors are never cached", "cache.set is reachable with a non-nil result.err (a failure is served from the cache)")
-	// set stores the Run result under the key used for get
-	getCall := gets[0].Inner.(*ast.CallExpr)
-	sameKey := len(setCall.Args) == 3 && len(getCall.Args) >= 1 && objOf(info, setCall.Args[0]) != nil && objOf(info, setCall.Args[0]) == objOf(info, getCall.Args[0])
-	storesResult := len(setCall.Args) == 3 && resultObj != nil && objOf(info, setCall.Args[1]) == resultObj
-	c.Check(sameKey && storesResult, "C14-R3", "processJob:set(key of get, Run result)", setCall.Pos(), "same key, run result", "cache.set does not store the Run() result under the key that get() looked up")
-	// the key comes from job.query.CacheKey()
-	okKey := false
-	if len(getCall.Args) >= 1 {
-		k := objOf(info, getCall.Args[0])
+		c.Check(okHit, R, "processJob:cache hit returns the cached value without Run", pj.Decl.Pos(), "hit short-circuits", "a cache hit no longer returns the cached result immediately (the server is asked again)")
+		// set only with nil error
+		var resultObj types.Object
 		ast.Inspect(pj.Decl.Body, func(n ast.Node) bool {
-			if as, ok := n.(*ast.AssignStmt); ok && len(as.Rhs) == 1 && objOf(info, as.Lhs[0]) == k {
-				if call, ok := as.Rhs[0].(*ast.CallExpr); ok {
-					if fn := Callee(info, call); fn != nil && fn.Name() == "CacheKey" {
-						okKey = true
-					}
-				}
+			if as, ok := n.(*ast.AssignStmt); ok && len(as.Rhs) == 1 && isRunCall(as.Rhs[0]) {
+				resultObj = objOf(info, as.Lhs[0])
 			}
 			return true
 		})
-	}
-	c.Check(okKey, "C14-R3", "processJob:key is query.CacheKey()", getCall.Pos(), "CacheKey()", "cache key is not the query's CacheKey()")
-
-	// staleness bookkeeping: a time field whose age gc() tests (now.Sub(ce.F)) is stamped with c.now() when the entry is stored
-	if gc := c.MustFunc("C14-R3", "internal/promapi.queryCache.gc"); gc != nil {
-		ginfo := gc.Pkg.TypesInfo
-		aged := map[string]bool{}
-		ast.Inspect(gc.Decl.Body, func(n ast.Node) bool {
-			call, ok := n.(*ast.CallExpr)
-			if !ok || len(call.Args) != 1 {
-				return true
+		getCall := gets[0].Inner.(*ast.CallExpr)
+		for si, set := range sets {
+			sfx := ""
+			if si > 0 {
+				sfx = "#" + itoa(si+1)
 			}
-			if sel, ok := call.Fun.(*ast.SelectorExpr); ok && sel.Sel.Name == "Sub" {
-				if fs, ok := call.Args[0].(*ast.SelectorExpr); ok && fieldOwner(ginfo, fs) == "internal/promapi.cacheEntry" {
-					aged[fs.Sel.Name] = true
+			setCall := set.Inner.(*ast.CallExpr)
+			domErr := fl.Dominated(set.Site, set.Inner, func(a Atom) bool {
+				x, isNil, ok := nilAtom(info, a)
+				if !ok || !isNil {
+					return false
 				}
-			}
-			return true
-		})
-		set := p.Func("internal/promapi.queryCache.set")
-		for _, f := range sortedKeys(aged) {
-			ok := false
-			if set != nil {
-				for _, cl := range compositeLits(ginfo, set.Decl.Body, "internal/promapi.cacheEntry") {
-					if v := litField(cl, f); v != nil {
-						if call, isCall := v.(*ast.CallExpr); isCall && fieldSel(ginfo, call.Fun, "internal/promapi.queryCache", "now") {
-							ok = true
+				sel, isSel := ast.Unparen(x).(*ast.SelectorExpr)
+				return isSel && sel.Sel.Name == "err" && resultObj != nil && objOf(info, sel.X) == resultObj
+			})
+			c.Check(domErr, R, "processJob:set only when result.err == nil"+sfx, setCall.Pos(), "errors are never cached", "cache.set is reachable with a non-nil result.err (a failure is served from the cache)")
+			// set stores the Run result under the key used for get
+			sameKey := len(setCall.Args) == 3 && len(getCall.Args) >= 1 && objOf(info, setCall.Args[0]) != nil && objOf(info, setCall.Args[0]) == objOf(info, getCall.Args[0])
+			storesResult := len(setCall.Args) == 3 && resultObj != nil && objOf(info, setCall.Args[1]) == resultObj
+			c.Check(sameKey && storesResult, R, "processJob:set(key of get, Run result)"+sfx, setCall.Pos(), "same key, run result", "cache.set does not store the Run() result under the key that get() looked up")
+		}
+		// the key comes from job.query.CacheKey()
+		okKey := false
+		if len(getCall.Args) >= 1 {
+			k := objOf(info, getCall.Args[0])
+			ast.Inspect(pj.Decl.Body, func(n ast.Node) bool {
+				if as, ok := n.(*ast.AssignStmt); ok && len(as.Rhs) == 1 && objOf(info, as.Lhs[0]) == k {
+					if call, ok := as.Rhs[0].(*ast.CallExpr); ok {
+						if fn := Callee(info, call); fn != nil && fn.Name() == "CacheKey" {
+							okKey = true
 						}
 					}
 				}
-			}
-			c.Check(ok, "C14-R3", "queryCache.set:stamps "+f+" with now()", gc.Decl.Pos(), "fresh entries are not stale", "gc() evicts entries whose "+f+" is older than maxStale, but set() does not stamp "+f+" with the current time: a freshly stored answer is evicted at the next clean-up instead of being reused for its lifetime")
+				return true
+			})
 		}
-		c.Check(len(aged) >= 1, "C14-R3", "queryCache.gc:age test found", gc.Decl.Pos(), itoa(len(aged))+" aged field(s)", "no now.Sub(entry.field) staleness test found")
-	}
+		c.Check(okKey, R, "processJob:key is query.CacheKey()", getCall.Pos(), "CacheKey()", "cache key is not the query's CacheKey()")
 
-	c14KeyClockFree(c)
-	cacheExpiryWriters(c, "C14-R3")
+		// staleness bookkeeping: a time field whose age gc() tests (now.Sub(ce.F)) is stamped with c.now() when the entry is stored
+		if gc := c.MustFunc(R, "internal/promapi.queryCache.gc"); gc != nil {
+			ginfo := gc.Pkg.TypesInfo
+			aged := map[string]bool{}
+			ast.Inspect(gc.Decl.Body, func(n ast.Node) bool {
+				call, ok := n.(*ast.CallExpr)
+				if !ok || len(call.Args) != 1 {
+					return true
+				}
+				if sel, ok := call.Fun.(*ast.SelectorExpr); ok && sel.Sel.Name == "Sub" {
+					if fs, ok := call.Args[0].(*ast.SelectorExpr); ok && fieldOwner(ginfo, fs) == "internal/promapi.cacheEntry" {
+						aged[fs.Sel.Name] = true
+					}
+				}
+				return true
+			})
+			set := p.Func("internal/promapi.queryCache.set")
+			for _, f := range sortedKeys(aged) {
+				ok := false
+				if set != nil {
+					for _, cl := range compositeLits(ginfo, set.Decl.Body, "internal/promapi.cacheEntry") {
+						if v := litField(cl, f); v != nil {
+							if call, isCall := v.(*ast.CallExpr); isCall && fieldSel(ginfo, call.Fun, "internal/promapi.queryCache", "now") {
+								ok = true
+							}
+						}
+					}
+				}
+				c.Check(ok, R, "queryCache.set:stamps "+f+" with now()", gc.Decl.Pos(), "fresh entries are not stale", "gc() evicts entries whose "+f+" is older than maxStale, but set() does not stamp "+f+" with the current time: a freshly stored answer is evicted at the next clean-up instead of being reused for its lifetime")
+			}
+			c.Check(len(aged) >= 1, R, "queryCache.gc:age test found", gc.Decl.Pos(), itoa(len(aged))+" aged field(s)", "no now.Sub(entry.field) staleness test found")
+		}
+
+	}
+	protocol()
+	if R == "C14-R3" {
+		c14KeyClockFree(c)
+	}
+	if R == "C14-R3" {
+		c14SingleUnlock(c)
+	}
+	if R == "C14-R3" {
+		c14TemplateFields(c)
+	}
+	cacheExpiryWriters(c, R)
 
 	// CacheKey coverage
 	qt := p.LookupType("internal/promapi", "querier")
@@ -607,7 +629,7 @@ func c14Cache(c *Ctx) {
 		tq := typeQName(tn.Type())
 		ck := p.methodOn(tq, "CacheKey")
 		if ck == nil {
-			c.Undecided("C14-R3", "CacheKey:"+tq, tn.Pos(), "no CacheKey method")
+			c.Undecided(R, "CacheKey:"+tq, tn.Pos(), "no CacheKey method")
 			continue
 		}
 		kinfo := ck.Pkg.TypesInfo
@@ -619,7 +641,7 @@ func c14Cache(c *Ctx) {
 			return true
 		})
 		if hashCall == nil {
-			c.Undecided("C14-R3", "CacheKey:"+tq, ck.Decl.Pos(), "does not call hash(...)")
+			c.Undecided(R, "CacheKey:"+tq, ck.Decl.Pos(), "does not call hash(...)")
 			continue
 		}
 		hasURI, hasEndpoint := false, false
@@ -642,14 +664,14 @@ func c14Cache(c *Ctx) {
 				return true
 			})
 		}
-		c.Check(hasURI, "C14-R3", "CacheKey:"+tq+":server URI", hashCall.Pos(), "hashed", "cache key ignores the server URI (answers of one upstream are served for another)")
-		c.Check(hasEndpoint, "C14-R3", "CacheKey:"+tq+":endpoint", hashCall.Pos(), "hashed", "cache key ignores the endpoint")
+		c.Check(hasURI, R, "CacheKey:"+tq+":server URI", hashCall.Pos(), "hashed", "cache key ignores the server URI (answers of one upstream are served for another)")
+		c.Check(hasEndpoint, R, "CacheKey:"+tq+":endpoint", hashCall.Pos(), "hashed", "cache key ignores the endpoint")
 		for _, f := range structFields(tn) {
 			if why, ok := exemptFields[f]; ok {
 				_ = why
 				continue
 			}
-			c.Check(mentioned[f], "C14-R3", "CacheKey:"+tq+":field "+f, hashCall.Pos(), "hashed", "cache key ignores field "+f+": different questions share one cache entry")
+			c.Check(mentioned[f], R, "CacheKey:"+tq+":field "+f, hashCall.Pos(), "hashed", "cache key ignores field "+f+": different questions share one cache entry")
 			// struct-valued fields (v1.Range): every sub-field must be hashed
 			st, _ := tn.Type().Underlying().(*types.Struct)
 			for i := 0; st != nil && i < st.NumFields(); i++ {
@@ -673,7 +695,7 @@ func c14Cache(c *Ctx) {
 							return true
 						})
 					}
-					c.Check(found, "C14-R3", "CacheKey:"+tq+":field "+f+"."+sf, hashCall.Pos(), "hashed", "cache key ignores "+f+"."+sf+": different questions share one cache entry")
+					c.Check(found, R, "CacheKey:"+tq+":field "+f+"."+sf, hashCall.Pos(), "hashed", "cache key ignores "+f+"."+sf+": different questions share one cache entry")
 				}
 			}
 		}
@@ -737,4 +759,144 @@ func c14KeyClockFree(c *Ctx) {
 			"the text that identifies a range query in the in-flight lock key reads the clock ("+via+"): the same question asked a second later gets another key, so identical slice requests run concurrently and reach the server more than once")
 	}
 	c.Check(n >= 1, "C14-R1", "RangeQueryTimes implementations enumerated", it.Pos(), itoa(n), "no implementation with a String method found")
+}
+
+// c14TemplateFields: a discovery template is turned into a server definition
+// field by field. Every field of the PrometheusConfig literal in
+// PrometheusTemplate.Render that the template has under the same name is filled
+// from that template field — directly, or from a local that was derived from it
+// (rendered). Concurrency filled from RateLimit starts `rateLimit` workers.
+func c14TemplateFields(c *Ctx) {
+	fi := c.MustFunc("C14-R2", "internal/config.PrometheusTemplate.Render")
+	if fi == nil {
+		return
+	}
+	info := fi.Pkg.TypesInfo
+	var recv types.Object
+	if fi.Decl.Recv != nil && len(fi.Decl.Recv.List) == 1 && len(fi.Decl.Recv.List[0].Names) == 1 {
+		recv = info.Defs[fi.Decl.Recv.List[0].Names[0]]
+	}
+	tt := c.P.LookupType("internal/config", "PrometheusTemplate")
+	if recv == nil || tt == nil {
+		c.Undecided("C14-R2", "Render:receiver", fi.Decl.Pos(), "receiver or template type not found")
+		return
+	}
+	tfields := map[string]bool{}
+	for _, f := range structFields(tt) {
+		tfields[f] = true
+	}
+	n := 0
+	for _, cl := range compositeLits(info, fi.Decl.Body, "internal/config.PrometheusConfig") {
+		for _, el := range cl.Elts {
+			kv, ok := el.(*ast.KeyValueExpr)
+			if !ok {
+				continue
+			}
+			key := kv.Key.(*ast.Ident).Name
+			if !tfields[key] {
+				continue
+			}
+			n++
+			// does the value mention pt.<key>, possibly through locals?
+			okField := c14MentionsField(info, fi, kv.Value, recv, key, 0)
+			// and no other template field of the same type directly
+			wrong := ""
+			ast.Inspect(kv.Value, func(m ast.Node) bool {
+				if sel, ok := m.(*ast.SelectorExpr); ok && isObj(info, sel.X, recv) && sel.Sel.Name != key && tfields[sel.Sel.Name] {
+					wrong = sel.Sel.Name
+				}
+				return true
+			})
+			c.Check(okField && wrong == "", "C14-R2", "Render:"+key+" of the server comes from the template's "+key, kv.Pos(), "same-named field",
+				"the generated server's "+key+" is filled from `"+exprStr(kv.Value)+"`, not from the template's "+key+": e.g. concurrency taken from rateLimit starts that many workers, and more requests are in flight than configured")
+		}
+	}
+	c.Check(n >= 8, "C14-R2", "Render:template fields copied", fi.Decl.Pos(), itoa(n), "fewer than 8 same-named fields found")
+}
+
+// c14MentionsField: e reads recv.<field>, or a local whose definitions do.
+func c14MentionsField(info *types.Info, fi *FuncInfo, e ast.Expr, recv types.Object, field string, depth int) bool {
+	if depth > 3 {
+		return false
+	}
+	found := false
+	ast.Inspect(e, func(m ast.Node) bool {
+		switch x := m.(type) {
+		case *ast.SelectorExpr:
+			if isObj(info, x.X, recv) && x.Sel.Name == field {
+				found = true
+			}
+		case *ast.Ident:
+			v, ok := info.Uses[x].(*types.Var)
+			if !ok || v.IsField() || types.Object(v) == recv || found {
+				return true
+			}
+			ast.Inspect(fi.Decl.Body, func(k ast.Node) bool {
+				switch y := k.(type) {
+				case *ast.AssignStmt:
+					for i, l := range y.Lhs {
+						if lid, ok := l.(*ast.Ident); ok && (info.Defs[lid] == types.Object(v) || info.Uses[lid] == types.Object(v)) {
+							r := y.Rhs[0]
+							if i < len(y.Rhs) {
+								r = y.Rhs[i]
+							}
+							if r != e && c14MentionsField(info, fi, r, recv, field, depth+1) {
+								found = true
+							}
+						}
+					}
+				case *ast.RangeStmt:
+					for _, l := range []ast.Expr{y.Key, y.Value} {
+						if lid, ok := l.(*ast.Ident); ok && info.Defs[lid] == types.Object(v) && c14MentionsField(info, fi, y.X, recv, field, depth+1) {
+							found = true
+						}
+					}
+				}
+				return true
+			})
+		}
+		return true
+	})
+	return found
+}
+
+// c14SingleUnlock: a function that releases the per-question key with a
+// deferred unlock does not also release it explicitly: the late deferred call
+// would delete the key a following identical caller has just acquired and let
+// a third one in.
+func c14SingleUnlock(c *Ctx) {
+	p := c.P
+	unlock := p.Func("internal/promapi.partitionLocker.unlock")
+	if unlock == nil {
+		c.Undecided("C14-R1", "anchor:partitionLocker.unlock", token.NoPos, "method not found")
+		return
+	}
+	n := 0
+	for _, fi := range p.AllFuncs() {
+		if fi.Decl.Body == nil || p.IsTestFile(fi.Decl.Pos()) {
+			continue
+		}
+		info := fi.Pkg.TypesInfo
+		deferred, explicit := 0, 0
+		pm := parentMap(fi.Decl.Body)
+		ast.Inspect(fi.Decl.Body, func(nd ast.Node) bool {
+			call, ok := nd.(*ast.CallExpr)
+			if !ok || Callee(info, call) != unlock.Obj {
+				return true
+			}
+			if _, isDefer := pm[call].(*ast.DeferStmt); isDefer {
+				deferred++
+			} else {
+				explicit++
+			}
+			return true
+		})
+		if deferred+explicit == 0 {
+			continue
+		}
+		n++
+		c.Check(!(deferred > 0 && explicit > 0) && deferred <= 1, "C14-R1", fi.Name+":the key lock is released exactly once", fi.Decl.Pos(), itoa(deferred)+" deferred, "+itoa(explicit)+" explicit",
+			"the key is unlocked explicitly AND by a deferred call ("+itoa(deferred)+" deferred, "+itoa(explicit)+" explicit): the second release removes the key a following identical caller has just taken, so a third identical request is let in and the same question is in flight twice")
+	}
+	c.Check(n >= 5, "C14-R1", "functions releasing the key lock enumerated", token.NoPos, itoa(n), "fewer than five")
 }
